@@ -211,6 +211,16 @@ def rangeToJson(x):
 # function tools
 
 
+def _namesUsed(code):
+    """Names a compiled expression looks up, including those read inside nested scopes (a generator expression, a
+    lambda, a comprehension)."""
+    out = set(code.co_names)
+    for const in code.co_consts:
+        if isinstance(const, types.CodeType):
+            out |= _namesUsed(const)
+    return out
+
+
 class UserFcn:
     """Base trait for user functions.
 
@@ -314,7 +324,7 @@ class UserFcn:
                             (v,) = varname  # otherwise, use the one and only variable
                             if v is None:  # as the object (only discover it once)
                                 # (names of builtins - abs, min, max, round, ... - are known to eval as well)
-                                v = set(c.co_names) - set(context.keys()) - set(dir(builtins))
+                                v = _namesUsed(c) - set(context.keys()) - set(dir(builtins))
                                 if len(v) > 1:
                                     raise NameError(
                                         "more than one unrecognized variable names in single-argument "
